@@ -24,15 +24,16 @@ Current(e) == frames[e.id].ep = epoch
 (* C02-KF1: RansCompressor stores the NORMALISED frequency table in the frame and decompress normalises *)
 (* it again (Rans64Encoder::new is not idempotent on its own output): the decoder works with another table. *)
 (* Also reached through HybridCompressor when rANS wins (tag byte 1).                                        *)
+IsHybrid(e, subj) == \/ subj.fam \in {"factory", "direct"} /\ subj.variant = "hybrid"
+                     \/ subj.fam = "selector" /\ frames[e.id].note.algo = "Hybrid"    \* select_best named Hybrid
 G1(e, subj) == /\ BadDecompress(e) /\ Current(e)
-               /\ subj.fam \in {"factory", "direct"}
-               /\ \/ subj.variant = "rans"
-                  \/ subj.variant = "hybrid" /\ frames[e.id].note.tag = <<1>>
+               /\ \/ subj.fam \in {"factory", "direct"} /\ subj.variant = "rans"
+                  \/ IsHybrid(e, subj) /\ frames[e.id].note.tag = <<1>>
 
 (* C02-KF2: HybridCompressor marks "no algorithm shrank the data" with tag 0, the tag of its first         *)
 (* algorithm (Huffman): the raw fallback frame (1 + len(x) bytes) is handed to the Huffman decoder.          *)
 G2(e, subj) == /\ BadDecompress(e) /\ Current(e)
-               /\ subj.fam \in {"factory", "direct"} /\ subj.variant = "hybrid"
+               /\ IsHybrid(e, subj)
                /\ frames[e.id].note.tag = <<0>>
                /\ frames[e.id].f.len = frames[e.id].x.len + 1
 
